@@ -105,6 +105,27 @@ func c20Cases(quick bool) []c20Case {
 			}
 		}
 	}
+	// operators that take a pair: every ordered pair of the numeric operands (divisor/remainder, positions, ranges)
+	numeric := W[:21]
+	for _, op := range []string{"$mod", "$in", "$all", "$bitsAnySet", "$size", "$type"} {
+		for _, x := range numeric {
+			for _, y := range numeric {
+				op, x, y := op, x, y
+				q1 := bson.D{{Key: "a", Value: bson.D{{Key: op, Value: bson.A{x, y}}}}}
+				q2 := bson.D{{Key: "a.b", Value: bson.D{{Key: "$not", Value: bson.D{{Key: op, Value: bson.A{x, y}}}}}}}
+				add("match-pair:"+op, false, func() string { return "mongokit.Match(every document and {a: each numeric operand}, " + short(J(q1), 300) + ") and under $not on a.b" }, func(*world.World) {
+					for _, d := range D {
+						_, _ = mongokit.Match(clone(d), &q1)
+						_, _ = mongokit.Match(clone(d), &q2)
+					}
+					for _, n := range numeric {
+						_, _ = mongokit.Match(&bson.D{{Key: "a", Value: n}}, &q1)
+						_, _ = mongokit.Match(&bson.D{{Key: "a", Value: bson.D{{Key: "b", Value: bson.A{n}}}}}, &q2)
+					}
+				})
+			}
+		}
+	}
 	for _, top := range []string{"$and", "$or", "$nor", "$not", "$jsonSchema", "$expr", "$where", "$comment", "$text", "$bogus"} {
 		for _, wv := range W {
 			top, wv := top, wv
